@@ -12,6 +12,7 @@
      {"ev":"ret","t":thread,"status":"success"|"already"|"inprogress"|"fail","beh":..}  harness, after the call
      {"ev":"kick"}                          harness: the current backend sends a play disconnect
      {"ev":"quit"}                          harness: the client closes its connection
+     {"ev":"cancel","t":thread}             harness: the caller cancels the request's context
      {"ev":"dial","who":..,"s":..,"phase":"held"|"released"}   harness: the attempt's TCP dial (no meaning for the spec)
      {"ev":"obs","current":..,"alive":bool,"open":[servers],"openids":[ids],"lists":[servers]}
                                             harness at quiescence: Player.CurrentServer(), client connection,
@@ -38,10 +39,14 @@ TConn == IsEv("conn") /\ Connected(Rec.s)
 TRet == IsEv("ret") /\ Ret(Rec.t, Rec.status, Rec.beh)
 TKick == IsEv("kick") /\ Kick
 TQuit == IsEv("quit") /\ Quit
+\* harness: the caller cancels the context of request t.  The call has to come back (its attempt
+\* ends, so the player is where it was and later requests are admitted); a harness line
+\* {"ev":"stuck","t":..} -- the call still blocked 6 s later -- is matched by no action.
+TCancel == IsEv("cancel") /\ Rec.t \in DOMAIN calls /\ UNCHANGED svars
 TDial == IsEv("dial") /\ UNCHANGED svars      \* harness: an attempt's TCP dial is held / released
 TObs == IsEv("obs") /\ Observe([current |-> Rec.current, alive |-> Rec.alive, open |-> Rec.open,
                                  openids |-> Rec.openids, lists |-> AsSet(Rec.lists)])
 
-TNext == TReset \/ TCall \/ TChk \/ TStart \/ TClear \/ TEnd \/ TConn \/ TRet \/ TKick \/ TQuit \/ TDial \/ TObs
+TNext == TReset \/ TCall \/ TChk \/ TStart \/ TClear \/ TEnd \/ TConn \/ TRet \/ TKick \/ TQuit \/ TCancel \/ TDial \/ TObs
 TSpec == TInit /\ [][TNext]_tv
 =============================================================================
